@@ -198,6 +198,7 @@ func (e *EndpointIndex) GetOrCreateEndpointShard(serviceName, namespace string) 
 	if ep, ok := e.ShardsForService(serviceName, namespace); ok {
 		return ep, false
 	}
+	verifGate("lookup:after-miss")
 
 	e.mu.Lock()
 	defer e.mu.Unlock()
